@@ -15,9 +15,11 @@ for _c, _a in ((J.Job, "init"), (J.Job, "move"), (J.Job, "remove"), (J.Job, "cle
 CODE = ["signac.job.Job.init / _StatePointDict.save / load", "signac.job._StatePointDict._save (re-key protocol with rollback)", "signac.job.Job.move / remove / clear / reset",
         "signac.project.Project.clone / check / _get_statepoint_from_workspace", "signac._utility._mkdir_p", "synced_collections JSON backend _save_to_resource (temp file + os.replace)"]
 BOUNDS = {"scenarios": "init fresh / existing valid / existing corrupt / existing empty dir; re-key to fresh / initialised / empty-dir destination; move (fresh / existing destination); clone with nested payload; remove; clear; reset",
+          "fault sequences": "from step k on (any k) every call on a path inside one region {the job's directory, the destination directory in the same / the other project, a whole workspace} is denied with EACCES / EIO and "
+                             "isfile/isdir/exists answer False there (what the standard library does when stat fails); state judged after access is restored",
           "faults": "crash before step k, torn write (0, 1 or 5 bytes) at step k, step k fails with EIO / ENOSPC / EACCES / EXDEV / EROFS; k ranges over ALL non-negative ints (unbounded symbolic); thorough: a second failing step k2 > k (EIO)",
           "payload": "document {k:1}, files f and sub/g; two bystander jobs with their own documents/files"}
-OUTSIDE = ["ENOENT faults (read as 'not there' by design)", "power-loss reordering / fsync", "faults inside h5py", "more than two faults"]
+OUTSIDE = ["a SINGLE failing stat inside os.path.isfile/isdir/exists (swallowed by the standard library and read as 'not there', like ENOENT); clone into a destination directory that stays inaccessible (nobody can remove the partial copy)", "ENOENT faults (read as 'not there' by design)", "power-loss reordering / fsync", "faults inside h5py", "more than two faults"]
 STUBS = ["MemFS for os/shutil/open/uuid (validated against tmpfs on every run; counterexamples replayed on the real file system)", "Project built without __init__"]
 ASSUMPTIONS = ["process-crash semantics: every completed file-system call is durable", "on an exception from a removal operation (remove/clear/reset) a partially removed payload is acceptable; nothing may be forged or silently reported as success"]
 
@@ -107,13 +109,41 @@ def _valid(files, d):
     return sp if refs.canon_id(sp) == d else None
 
 
-def _case(scn, mode, k, t, e, k2=None, rev=False):
+class RegionFault:
+    """fault SEQUENCE: from step k on, every file-system call on a path inside `region` is denied with errno e (a directory that became
+    inaccessible: permission revoked, device error). os.path.isfile/isdir/exists answer False for such paths, as the standard library does
+    when stat() fails; every other call raises. k is an unbounded symbolic int."""
+
+    def __init__(self, k, err, region):
+        self.k, self.err, self.region = k, err, region
+        self.on = False
+        self.n = 0
+        self.fired = []
+
+    def __call__(self, fs, idx, name, args):
+        from vflib.hutil import decide
+        i = self.n
+        self.n += 1
+        if not self.on and decide(lambda: self.k <= i):
+            self.on = True
+        if self.on and any(isinstance(a, str) and (a == self.region or a.startswith(self.region + "/")) for a in args[:2]):
+            self.fired.append((i, name) + tuple(args))
+            return ("deny", self.err)
+        return None
+
+
+def _region(reg):
+    old_id, new_id = refs.canon_id(OLD), refs.canon_id(NEW)
+    return ["/p/workspace/" + old_id, "/p/workspace/" + new_id, "/q/workspace/" + old_id, "/p/workspace", "/q/workspace"][reg]
+
+
+def _case(scn, mode, k, t, e, k2=None, rev=False, reg=0):
     s, op, removal = _setup(scn)
     fs = s.fs
     fs.list_reverse = rev
     try:
         pre = _view(fs)
-        plan = FaultPlan(mode, k, t=t, err=e, k2=k2, err2=errno.EIO)
+        plan = FaultPlan(mode, k, t=t, err=e, k2=k2, err2=errno.EIO) if mode != 5 else RegionFault(k, e, _region(reg))
         fs.hook = plan
         exc = None
         crashed = False
@@ -188,7 +218,7 @@ def _case(scn, mode, k, t, e, k2=None, rev=False):
             if invalid:
                 detectable = True
         # P5: a handled I/O error propagates; never a silent partial success
-        if mode == 3 and plan.fired and not crashed:
+        if mode in (3, 5) and plan.fired and not crashed:
             if exc is None:
                 good = _success_view(scn)
                 if _strip_tmp(post) != _strip_tmp(good):
@@ -260,8 +290,29 @@ def h_fault2(scn: int, k: int, d: int, e: int):
     assert r[0]
 
 
+def h_region(scn: int, reg: int, k: int, e: int, rev: bool):
+    """fault SEQUENCE: from step k on (any k >= 0) every call on a path inside one directory region is denied (EACCES / EIO); queries answer False"""
+    assert 0 <= scn <= NSCN and 0 <= reg <= 4 and 0 <= k and 0 <= e <= 1 and part_ok(scn)
+    assert not (scn == 10 and reg in (2, 4))   # clone into a destination that stays inaccessible: the partial copy cannot be cleaned up by anybody (outside)
+    fresh_path()
+    scn, reg, e, rev = ci(scn, 0, NSCN), ci(reg, 0, 4), pick([errno.EACCES, errno.EIO], e), cb(rev)
+    with nt():
+        r = _case(scn, 5, k, 0, e, rev=rev, reg=reg)
+    reached()
+    assert r[0]
+
+
+def h_region__reach(scn: int, reg: int, k: int, e: int, rev: bool):
+    assert 0 <= scn <= NSCN and 0 <= reg <= 4 and 0 <= k and 0 <= e <= 1
+    scn, reg = ci(scn, 0, NSCN), ci(reg, 0, 4)
+    with nt():
+        r = _case(scn, 5, k, 0, errno.EACCES, reg=reg)
+    assert not (len(r[2]) >= 2 and r[4] is not None)  # twin: a denial that hits at least two calls and surfaces as an exception is reachable
+
+
 HARNESSES = [
     dict(name="h_fault", twin="h_fault__reach", timeout=(600, 1500), parts=(14, 14)),
+    dict(name="h_region", twin="h_region__reach", timeout=(600, 1500), parts=(14, 14)),
     dict(name="h_fault2", timeout=(1500, 1500), parts=(14, 14), tiers=("thorough",)),
 ]
 
